@@ -24,7 +24,8 @@ Terms == {WithAl(t, "ala") : t \in BaseTerms} \cup {[k |-> "ext", cls |-> c, al 
 
 Positions == {"select-item", "select-two", "operand-arith", "operand-func", "operand-case-then", "operand-case-when", "operand-cmp-in-select",
               "where", "having", "groupby", "orderby", "join-on", "insert-value", "set-value",
-              "groupby-ref", "orderby-ref", "groupby-other-alias", "subquery-select"}
+              "groupby-ref", "orderby-ref", "groupby-other-alias", "subquery-select",
+              "operand-cmp-right-in-select", "operand-arith-right", "where-right", "having-right", "operand-func-second"}
 
 Sel(ts) == [m |-> "select", terms |-> ts]
 Outer(t) == WithAl(t, "alx")
@@ -38,6 +39,11 @@ Program(t, p) ==
       [] p = "operand-case-then" -> <<from, Sel(<<Outer([k |-> "case", w |-> Cmp(Fld("T1", "c"), Num("1")), t |-> t, e |-> Num("0")])>>)>>
       [] p = "operand-case-when" -> <<from, Sel(<<Outer([k |-> "case", w |-> Cmp(t, Num("1")), t |-> Num("2"), e |-> Num("0")])>>)>>
       [] p = "operand-cmp-in-select" -> <<from, Sel(<<Outer(Cmp(t, Num("1")))>>)>>
+      [] p = "operand-cmp-right-in-select" -> <<from, Sel(<<Outer(Cmp(Fld("T1", "c"), t))>>)>>
+      [] p = "operand-arith-right" -> <<from, Sel(<<Outer([k |-> "bin", op |-> "-", l |-> Fld("T1", "c"), r |-> t])>>)>>
+      [] p = "where-right" -> <<from, plain, [m |-> "where", crit |-> Cmp(Fld("T1", "c"), t)]>>
+      [] p = "having-right" -> <<from, plain, [m |-> "having", crit |-> Cmp(Fld("T1", "c"), t)]>>
+      [] p = "operand-func-second" -> <<from, Sel(<<Outer([k |-> "call", f |-> "COALESCE", args |-> <<Fld("T1", "c"), t>>])>>)>>
       [] p = "where" -> <<from, plain, [m |-> "where", crit |-> Cmp(t, Num("1"))]>>
       [] p = "having" -> <<from, plain, [m |-> "having", crit |-> Cmp(t, Num("1"))]>>
       [] p = "groupby" -> <<from, plain, [m |-> "groupby", terms |-> <<t>>]>>
